@@ -103,6 +103,29 @@ pub fn c07(o: &Opts) -> Outcome {
             cases += 1;
             if let Some(w) = c07_one(&recs, k, 2, 6.0, false) { return Outcome { cases, witness: Some(w) }; }
         }
+        // more than 2^20 bases in many records (beyond any batch size a reader hand-out might use), one and many workers
+        {
+            let mut r2 = Rng(o.seed.wrapping_mul(0x2545F4914F6CDD1D) | 5);
+            let recs: Vec<Vec<u8>> = (0..1300).map(|_| random_seq(&mut r2, 1000, 0)).collect();
+            for threads in [1usize, 8] {
+                cases += 1;
+                if let Some(mut w) = c07_one(&recs, 12, threads, 6.0, false) {
+                    for kv in w.iter_mut() { if kv.0 == "records" { kv.1 = format!("<1300 random records of 1000 bases, seed {}>", o.seed); } }
+                    return Outcome { cases, witness: Some(w) };
+                }
+            }
+        }
+        // one worker (one partition) and a ceiling that yields two, three, ... chunks
+        {
+            let mut r2 = Rng(o.seed.wrapping_mul(0x2545F4914F6CDD1D) | 7);
+            let recs: Vec<Vec<u8>> = (0..20).map(|_| random_seq(&mut r2, 100, 0)).collect();
+            for mem in [4e-6f64, 8e-6, 1.2e-5, 1.6e-5, 3e-5] {
+                for acgt in [false, true] {
+                    cases += 1;
+                    if let Some(w) = c07_one(&recs, 10, 1, mem, acgt) { return Outcome { cases, witness: Some(w) }; }
+                }
+            }
+        }
         // multi-member gzip input: every member is counted
         {
             let recs: Vec<Vec<u8>> = vec![b"ACGGTCATTGACCAGTTAGG".to_vec(), b"TTGACCATGGCATTAG".to_vec(), b"ACGGTCATTGACC".to_vec(), b"GGGGGGGGGGGGG".to_vec(), b"AC".to_vec()];
